@@ -146,11 +146,15 @@ def H3(ctx):
         ps = panic_sites(prog, ik, "already init")
         iinst = prog.ident(ik)
         ins = [b for (b, t, c) in prog.sites(iinst) if prog.callee_key(c).endswith("::or_insert")]
+        # the refusal depends on the looked-up entry (if-let, match or matches! form)
         occ = False
-        for (b, msg) in ps:
-            atoms = guard_atoms(ifn.body, b)
-            if any(e[0] == "discr" and "entry" in canon(e) for (e, pol, v, sb) in atoms):
-                occ = True
+        for b in range(ifn.body.n):
+            t = ifn.body.term(b)
+            if t["k"] == "switch":
+                e = ifn.body.expr_of_operand(t["op"])
+                if e[0] == "discr" and "entry(" in canon(e):
+                    occ = True
+        occ = occ and all(b in ifn.body.reachable() for (b, m_) in ps) and all(b in ifn.body.reachable() for b in ins)
         if ps and ins and occ:
             ctx.ok("H3", ik, "an occupied slot is an internal error: at most one value per execution", [site_str(prog, ik, ps[0][0])])
         else:
